@@ -141,7 +141,7 @@ type cbEv struct {
 	at      int64
 }
 
-func ackqHist(n, threads, nops int, seed int64, focus bool) M {
+func ackqHist(n, threads, nops int, seed int64, focus int) M {
 	q := ack.NewQueue()
 	h := &hist{}
 	base := time.Unix(1700000000, 0)
@@ -164,7 +164,7 @@ func ackqHist(n, threads, nops int, seed int64, focus bool) M {
 		}
 		return keyLocks[k]
 	}
-	if focus {
+	if focus > 0 {
 		// a due entry, a burst of acknowledgements of the WRONG type on it (each must leave the entry exactly as it is) and a
 		// sweep at the same time; then, alone, another sweep: the entry must have fired exactly once by then
 		tg := int(atomic.AddInt64(&tag, 1))
@@ -177,6 +177,16 @@ func ackqHist(n, threads, nops int, seed int64, focus bool) M {
 			o["ok"] = err == nil
 		})
 		run(2, seed, func(t int, r *rand.Rand) {
+			if t == 0 && focus == 2 {
+				// the acknowledgement of the RIGHT type, once, racing the sweep: exactly one of the two resolves the entry
+				for i := r.Intn(40); i > 0; i-- {
+					runtime.Gosched()
+				}
+				h.do(t, M{"f": "ack", "s": "s0", "id": 1, "ty": "PUBACK", "kind": "", "d": 0, "tag": 0, "now": 0}, func(o M) {
+					o["ok"] = q.Ack("s0", mkAck("PUBACK", 1)) == nil
+				})
+				return
+			}
 			if t == 0 {
 				for i := 0; i < nops*3; i++ {
 					ty := []string{"PUBREC", "PUBREL", "PUBCOMP"}[r.Intn(3)]
@@ -534,10 +544,14 @@ func main() {
 		k++
 		emit(poolHist(k, *threads, *nops, s))
 		k++
-		emit(ackqHist(k, *threads, *nops, s, false))
+		emit(ackqHist(k, *threads, *nops, s, 0))
 		for j := 0; j < 3; j++ {
 			k++
-			emit(ackqHist(k, *threads, *nops, s*7+int64(j), true))
+			emit(ackqHist(k, *threads, *nops, s*7+int64(j), 1))
+		}
+		for j := 0; j < 6; j++ {
+			k++
+			emit(ackqHist(k, *threads, *nops, s*11+int64(j), 2))
 		}
 		k++
 		emit(regHist(k, *threads, *nops, s))
